@@ -6,7 +6,7 @@ from concurrent.futures import ThreadPoolExecutor
 from common import VERIF, ENV, run, cache_get, cache_put, repo_hash, machinery_hash
 
 LABEL_RE = re.compile(r'"((?:U\d+|K|X)\.[A-Za-z0-9_.\-]+)"')
-CLASSIFIER_VERSION = "k1"  # bump when parse_output/classify change meaning
+CLASSIFIER_VERSION = "k3"  # bump when parse_output/classify change meaning
 BOUND_MARKERS = ("unwinding assertion", "vmap capacity exceeded", "recursion unwinding")
 
 
@@ -39,14 +39,18 @@ def harness_sources():
     return out
 
 
-def support_hash(srcs):
-    """hash of everything a harness can depend on besides its own body: the verification sources with the
-    bodies of the #[kani::proof] functions removed, and the runner itself"""
+SHARED_SUPPORT = ("mod.rs", "util.rs", "vmap.rs", "k_link.rs")
+
+
+def support_hash(srcs, own_file=None):
+    """hash of everything a harness can depend on besides its own body: the shared verification sources
+    and its own file, each with the bodies of the #[kani::proof] functions removed (harnesses of other
+    k_*.rs files are independent modules), and the classifier version"""
     import hashlib
     h = hashlib.sha256()
     d = os.path.join(VERIF, "kani", "verif")
     for fn in sorted(os.listdir(d)):
-        if not fn.endswith(".rs"):
+        if not fn.endswith(".rs") or not (fn in SHARED_SUPPORT or fn == own_file):
             continue
         text = open(os.path.join(d, fn)).read()
         for name, s in srcs.items():
@@ -106,11 +110,15 @@ def classify(entry, src, rc, out, secs, timed_out):
     obl[safety] = "discharged"
     reason = ""
     low = out.lower()
-    oom = ("out of memory" in low) or ("std::bad_alloc" in low) or ("memory exhausted" in low) or ("killed" in low and p["status"] is None)
+    crashed = "cbmc failed with status" in low or "cbmc crashed" in low
+    oom = crashed or ("out of memory" in low) or ("std::bad_alloc" in low) or ("memory exhausted" in low) or ("killed" in low and p["status"] is None)
     if timed_out or oom or p["status"] is None:
-        why = "timeout" if timed_out else ("out of memory" if oom else "no verdict (tool error)")
+        why = "timeout" if timed_out else ("CBMC crashed / out of memory" if oom else "no verdict (tool error)")
         return {"obligations": {k: "undecided" for k in obl}, "reason": why, "parsed": p, "tail": out[-3000:]}
     expect = entry.get("expect", "success")
+    if p["status"] == "failed" and not p["failed"]:
+        # Kani prints VERIFICATION:- FAILED when CBMC is killed (memory limit) or exits abnormally
+        return {"obligations": {k: "undecided" for k in obl}, "reason": "failed without any failed check (CBMC killed or crashed)", "parsed": p, "tail": out[-3000:]}
     bound_hit = [f for f in p["failed"] if any(b in f["desc"] for b in BOUND_MARKERS)]
     if bound_hit:
         return {"obligations": {k: "undecided" for k in obl}, "reason": "bound exceeded: " + bound_hit[0]["desc"], "parsed": p, "tail": out[-3000:]}
@@ -173,6 +181,12 @@ def run_harness(crate, tdir, entry, src):
            "-Z", "stubbing", "-Z", "function-contracts"]
     for f in entry.get("flags", []):
         cmd.append(f)
+    # CBMC's symbolic execution only propagates constants through arrays up to this many elements; heap
+    # objects are byte arrays, so with the default (64) every loop whose exit depends on heap contents is
+    # unrolled to the unwind bound.  512 covers every object the harnesses allocate.  Must come last.
+    # It is opt-in per harness: with many symbolic values (the Probe-payload harnesses) it costs more memory.
+    if entry.get("field_sensitivity"):
+        cmd += ["-Z", "unstable-options", "--cbmc-args", "--max-field-sensitivity-array-size", str(entry["field_sensitivity"])]
     env = dict(ENV)
     rustflags = entry.get("cfg", [])
     if rustflags:
@@ -188,14 +202,15 @@ def run_harness(crate, tdir, entry, src):
 def run_all(scratch, entries, jobs=12, mem_budget_gb=48, log=print):
     """entries: registry records.  Returns {harness: result}; uses the content-addressed cache."""
     srcs = harness_sources()
-    base = repo_hash() + support_hash(srcs)
+    rh = repo_hash()
     results, todo = {}, []
     for e in entries:
         if e["harness"] not in srcs:
             results[e["harness"]] = {"obligations": {f"K.{e['harness']}.safety": "undecided"}, "reason": "harness source not found (lost anchor)", "wall_s": 0, "cached": False}
             continue
         import hashlib, json
-        key = hashlib.sha256((base + json.dumps(e, sort_keys=True) + srcs[e["harness"]]["body"] + srcs[e["harness"]]["attrs"]).encode()).hexdigest()
+        src = srcs[e["harness"]]
+        key = hashlib.sha256((rh + support_hash(srcs, src["file"]) + json.dumps(e, sort_keys=True) + src["body"] + src["attrs"]).encode()).hexdigest()
         c = cache_get(key)
         if c is not None and not any(v == "undecided" for v in c["obligations"].values()):
             c["cached"] = True
